@@ -96,7 +96,7 @@ class Monitors:
                             f["_done"] = True
                             try: os.remove(filename)
                             except OSError: pass
-                            tr.emit("fault", kind="vanish", path=str(filename))
+                            tr.emit("fault", kind="vanish", path=str(filename), cm=self_.id)
                     mon.tl.file = filename.name
                     return orig_pf(self_, filename, context, results, rules)
                 finally:
@@ -120,7 +120,7 @@ class Monitors:
                     for f in fps:
                         if f["file"] == st["file"] and st["n"] == f["j"] and mon.current_codemod not in f.setdefault("_done_cm", set()):
                             f["_done_cm"].add(mon.current_codemod)
-                            tr.emit("fault", kind="failpoint", where=code.co_qualname, j=f["j"], path=st["file"])
+                            tr.emit("fault", kind="failpoint", where=code.co_qualname, j=f["j"], path=st["file"], cm=mon.current_codemod)
                             raise InjectedFault(f"failpoint #{f['j']} in {code.co_qualname}")
                 monx.register_callback(TOOL, monx.events.PY_START, on_start)
                 def wrapped(cls, module, results, file_context):
@@ -139,7 +139,7 @@ class Monitors:
                 tr.count("transform")
                 for f in faults:
                     if f.get("kind") == "raise_transform" and f.get("file") == file_context.file_path.name and f.get("cm", mon.current_codemod) == mon.current_codemod:
-                        tr.emit("fault", kind="raise_transform", path=str(file_context.file_path))
+                        tr.emit("fault", kind="raise_transform", path=str(file_context.file_path), cm=mon.current_codemod)
                         raise InjectedFault("injected transformer fault")
                 return orig_tf(cls, module, results, file_context)
             self._patch(LT.LibcstResultTransformer, "transform", classmethod(transform_fp(transform)))
@@ -148,6 +148,13 @@ class Monitors:
             def _apply(self_, context, rules):
                 tr.count("_apply")
                 mon.current_codemod = self_.id
+                for f in (cfg.get("faults") or []):
+                    # file deleted after the prefilter and before this codemod's detector runs
+                    if f.get("kind") == "vanish_before_detector" and not f.get("_done"):
+                        f["_done"] = True
+                        try: os.remove(mon.target / f["file"])
+                        except OSError: pass
+                        tr.emit("fault", kind="vanish_before_detector", path=str(mon.target / f["file"]), cm=self_.id)
                 tr.emit("cm_begin", cm=self_.id, snap=snapshot(mon.target) if cfg.get("snap", True) else None)
                 return orig_apply(self_, context, rules)
             self._patch(BC.BaseCodemod, "_apply", _apply)
